@@ -1,5 +1,6 @@
 import PugModel.Driver.Decode
 import PugModel.Tpl.Compile
+import PugModel.JS.Spec
 /-! `render` cases: structured pug document + JSON data → the model's output class and bytes. -/
 namespace Pug.Driver
 open Lean Pug Pug.Tpl
@@ -66,9 +67,41 @@ def renderModel (doc : List Node) (data : Json) (extraFuncs : List String) : Jso
     | .error e => errJson e
     | .ok (_, st) => okOut st.out
 
+partial def jsOfJson (j : Json) : JS.JSVal :=
+  match j with
+  | .null => .null
+  | .bool b => .bool b
+  | .str s => .str s
+  | .num n => .num ((n.mantissa : Rat) / ((10 ^ n.exponent : Nat) : Rat))
+  | .arr a => .arr (a.toList.map jsOfJson)
+  | .obj o => .obj (o.toList.map fun (k, v) => (k, jsOfJson v))
+
+/-- specification answer for a document made of buffered code nodes and texts only:
+    each `= e` prints escape(ToString(eval e)) with null/undefined printing nothing -/
+def jsSpec (doc : List Node) (data : Json) : Json :=
+  let ρ : JS.Env := match jsOfJson data with
+    | .obj ps => ps
+    | _ => []
+  let rec go : List Node → Option String
+    | [] => some ""
+    | .text s :: rest => (go rest).map (s ++ ·)
+    | .codeBuf e esc _ :: rest =>
+      match JS.eval ρ e with
+      | some v =>
+        match JS.printed v, go rest with
+        | some s, some r => some ((if esc then stdHtmlEscape s else s) ++ r)
+        | _, _ => none
+      | none => none
+    | _ => none
+  match go doc with
+  | some s => okOut s
+  | none => clsOut "spec-domain"
+
 def runRender (c : Json) : Json × Json :=
   match (jarr c "doc").mapM decNode with
   | .error e => (clsOut "model-domain" ("decode: " ++ e), .null)
-  | .ok doc => (renderModel doc (jget c "data") (jstrs c "funcs"), .null)
+  | .ok doc =>
+    let spec := if jstr c "oracle" == "js-expr" then jsSpec doc (jget c "data") else .null
+    (renderModel doc (jget c "data") (jstrs c "funcs"), spec)
 
 end Pug.Driver
